@@ -55,14 +55,25 @@ def main():
     readme()
 
 
+def _load(p):
+    """a file another evaluation is rewriting at this moment may be empty for an instant: retry, then give up with {}"""
+    import time
+    for _ in range(5):
+        try:
+            return json.loads(p.read_text())
+        except Exception:
+            time.sleep(0.2)
+    return {}
+
+
 def readme():
     rows = ["# Seeded changes (each verified: demo fails with the change, passes without; never committed to /repo)", "",
             "| seed | property | needs to manifest | checks run -> outcome |", "|---|---|---|---|"]
     for d in sorted((V / "seeded").iterdir()):
         if not (d / "meta.json").exists():
             continue
-        m = json.loads((d / "meta.json").read_text())
-        det = json.loads((d / "detection.json").read_text()) if (d / "detection.json").exists() else {}
+        m = _load(d / "meta.json")
+        det = _load(d / "detection.json") if (d / "detection.json").exists() else {}
         outs = []
         for c, o in det.items():
             if o["exit"] == 1 and not o["no_failing_input_only"]:
